@@ -594,6 +594,10 @@ func genPathFamily(r vlib.Rnd) []byte {
 		}
 		// a quarter of the Path bodies take their properties from a user type: by reference or through allOf
 		open, close := ind+"  {\n", ind+"  }\n"
+		if vlib.Chance(r, 1, 6) {
+			// a rule on the root object of the Path body
+			open = ind + "  { // {" + vlib.Pick(r, []string{"type: \"\"", "type: \"object\"", "type: \"any\"", "nullable: true", "additionalProperties: true", "type: \"@int\"", "type: \"@obj\"", "minItems: 1", "or: [\"@obj\", \"@int\"]"}) + "}\n"
+		}
 		target := &sb
 		switch r.Intn(8) {
 		case 0:
